@@ -1,9 +1,9 @@
 INIT Init
 NEXT Next
-CONSTANTS NMax = 3
+CONSTANTS NMax = 9
   FloorFix = TRUE
   FlipFix = TRUE
   RemSign = TRUE
-  Lvl = 2
+  Lvl = 1
 INVARIANTS AddRefines MulRefines CmpRefines DivRefines UnaryRefines
 CHECK_DEADLOCK FALSE
